@@ -1,7 +1,7 @@
 """C17 - sequence-level compression: valid parses round-trip, invalid ones are refused"""
 from vlib import build, core
 
-HARNESSES = {'h_c17/asan': ('h_c17', 'asan')}
+HARNESSES = {'h_c17/asan': ('h_c17', 'asan'), 'h_c17/val': ('h_c17', 'val')}
 
 
 def run(prop, tier, seed, t0):
@@ -13,8 +13,9 @@ def run(prop, tier, seed, t0):
     nneg = 150000 if thorough else 8000
     R.run_sharded(res, exe, ['side=0'], npos, label='h_c17/asan', variant='asan')
     R.run_sharded(res, exe, ['side=1'], nneg, label='h_c17/asan', variant='asan')
+    nvg = core.valgrind_stage(R, res, HARNESSES['h_c17/val'], ['side=0'], 3200 if thorough else 160, npos) + core.valgrind_stage(R, res, HARNESSES['h_c17/val'], ['side=1'], 6400 if thorough else 320, nneg)
     cov = {
-        'evaluations': res.stat('positive_cases') + res.stat('negative_cases'),
+        'cases_under_valgrind_memcheck': nvg, 'evaluations': res.stat('positive_cases') + res.stat('negative_cases'),
         'distinct_nontrivial': res.ncells('positive_cell') + res.ncells('negative_rule'),
         'rule': 'positive: parses from an independent random LZ parser (explicit delimiters / none, minMatch 3..7, repcode-heavy / short / skipping styles, raw dictionary or prefix, maxBlockSize), parses extracted by ZSTD_generateSequences (+merge, same or separate context), registered producers (good / error / too many / zero) x fallback; each frame verified by library decoder and R. '
                 'negative: one structural corruption per list (offset beyond history/window at match start, matchLength < 3, missing/malformed delimiter, block lengths vs source, 32-bit length wrap) judged by an independent restatement of the documented rules, plus arbitrary arrays for memory safety; '
